@@ -239,6 +239,8 @@ class Case:
         self.stubborn = False
         self.given_tree = False
         self.full_matrix = False
+        self.expect_opts = {}      # option -> value the wrapper-specific setters asked for
+        self.expect_flag = None
 
     # -------------------------------------------------------------- helpers
     def tool_mode(self):
@@ -503,16 +505,28 @@ class Case:
                 app.set_distance_matrix(d)
             self.ctx.op("clustalo_setter_" + which)
         elif w == "muscle3":
-            app.set_gap_penalty(-float(rng.integers(1, 12)) if rng.random() < 0.5 else (-float(rng.integers(5, 12)), -float(rng.integers(1, 4))))
+            gpv = -float(rng.integers(1, 12)) if rng.random() < 0.5 else (-float(rng.integers(5, 12)), -float(rng.integers(1, 4)))
+            app.set_gap_penalty(gpv)
+            go_, ge_ = (gpv, gpv) if isinstance(gpv, float) else gpv
+            self.expect_opts.update({"-gapopen": "%.1f" % go_, "-gapextend": "%.1f" % ge_})
             self.ctx.op("muscle3_set_gap_penalty")
         elif w == "muscle5":
-            which = str(rng.choice(["iterations", "threads", "super5"]))
+            which = str(rng.choice(["iterations", "iterations_one", "threads", "super5"]))
             if which == "iterations":
-                app.set_iterations(consistency=int(rng.integers(1, 4)), refinement=int(rng.integers(1, 50)))
+                c_, r_ = int(rng.integers(1, 4)), int(rng.integers(5, 50))
+                app.set_iterations(consistency=c_, refinement=r_)
+                self.expect_opts.update({"-consiters": str(c_), "-refineiters": str(r_)})
+            elif which == "iterations_one":
+                r_ = int(rng.integers(5, 50))
+                app.set_iterations(refinement=r_)
+                self.expect_opts.update({"-refineiters": str(r_)})
             elif which == "threads":
-                app.set_thread_number(int(rng.integers(1, 4)))
+                t_ = int(rng.integers(1, 4))
+                app.set_thread_number(t_)
+                self.expect_opts.update({"-threads": str(t_)})
             else:
                 app.use_super5()
+                self.expect_flag = "-super5"
             self.ctx.op("muscle5_setter_" + which)
         else:
             app.add_additional_options([])
@@ -549,9 +563,16 @@ class Case:
         # the command line carries exactly the options this wrapper object was given - none from another
         # wrapper object of the process, none from a rejected setter call
         self.ctx.oracle("command_line_matches_setters")
-        seen = [a for a in runs[-1][3].split("\x1f") if a.startswith("--vf-extra=")]
+        argv_ = runs[-1][3].split("\x1f")
+        seen = [a for a in argv_ if a.startswith("--vf-extra=")]
         if seen != self.extra:
             self.ctx.fail("command_line_matches_setters", "tool was started with additional options %s, this wrapper was given %s" % (seen, self.extra))
+        for opt_, val_ in self.expect_opts.items():
+            got_ = argv_[argv_.index(opt_) + 1] if opt_ in argv_ and argv_.index(opt_) + 1 < len(argv_) else None
+            if got_ != val_:
+                self.ctx.fail("command_line_matches_setters", "the setter asked for %s %s, the tool was started with %s %s" % (opt_, val_, opt_, got_), argv=argv_)
+        if self.expect_flag is not None and self.expect_flag not in argv_:
+            self.ctx.fail("command_line_matches_setters", "the setter asked for %s, the tool was started without it" % self.expect_flag, argv=argv_)
 
     def check_results(self):
         ctx, app = self.ctx, self.app
